@@ -446,7 +446,7 @@ class _PixWrap:
 
         buffer = np.empty((self.n_pixels(), self.n_rows()), dtype=np.float32)
         remaining = self.n_pixels()
-        for offset in range(0, self.n_rows(), chunk_size):
+        for offset in range(0, self.n_pixels(), chunk_size):
             n = min(chunk_size, remaining)
             remaining -= n
             for i_row, (row, unit) in enumerate(
